@@ -205,7 +205,25 @@ pub fn gen_agg(r: &mut StdRng, depth: usize, cfg: &AggCfg) -> A {
           RangeA { key: if keyed_names { Some(format!("r{i}")) } else { None }, from8, to8 }
         })
         .collect();
-      A::Range { field: f.to_string(), fk, date: chance(r, 1, 4), keyed: chance(r, 1, 3), ranges, missing4: gen_missing4(r, fk, lo, hi), subs: gen_subs(r, depth, cfg) }
+      // distinct bounds, except for one deliberate duplicate (same range and key twice: both buckets must
+      // carry the same count; known finding S12c) - then without sub-aggregations
+      let mut ranges: Vec<RangeA> = ranges;
+      let mut seen: Vec<(Option<i64>, Option<i64>)> = Vec::new();
+      ranges.retain(|x| {
+        let k = (x.from8, x.to8);
+        if seen.contains(&k) {
+          false
+        } else {
+          seen.push(k);
+          true
+        }
+      });
+      let dup = ranges.len() < 3 && chance(r, 1, 8);
+      if dup {
+        ranges.push(ranges[0].clone());
+      }
+      let subs = if dup { vec![] } else { gen_subs(r, depth, cfg) };
+      A::Range { field: f.to_string(), fk, date: chance(r, 1, 4), keyed: chance(r, 1, 3), ranges, missing4: gen_missing4(r, fk, lo, hi), subs }
     }
     6 if chance(r, 1, 2) => {
       // date_histogram: the i64 fields read as milliseconds, whole-millisecond interval / offset / bounds
@@ -410,7 +428,7 @@ pub fn abstract_agg(a: &A, dict: &mut Dict) -> Value {
     A::Rare { field, maxdc, size, subs } => json!({"t": "rare", "f": field, "maxdc": maxdc.unwrap_or(1), "size": size.unwrap_or(0),
              "hassize": size.is_some(), "hasmissing": false, "missing": "", "subs": abstract_subs(subs, dict)}),
     A::Range { field, fk, ranges, missing4, subs, .. } => json!({"t": "range", "f": field, "fk": fk,
-             "ranges": ranges.iter().map(|x| json!({"key": x.key.clone().unwrap_or_default(), "hasfrom": x.from8.is_some(), "from8": x.from8.unwrap_or(0),
+             "ranges": ranges.iter().map(|x| json!({"key": x.key.clone().unwrap_or_else(|| range_id(x.from8, x.to8)), "hasfrom": x.from8.is_some(), "from8": x.from8.unwrap_or(0),
                                                      "hasto": x.to8.is_some(), "to8": x.to8.unwrap_or(0)})).collect::<Vec<_>>(),
              "hasmissing": m4(missing4).0, "missing4": m4(missing4).1, "subs": abstract_subs(subs, dict)}),
     A::Hist { field, fk, date, iv4, off4, mdc, ext4, hard8, missing4, subs } => json!({"t": "hist", "f": field, "fk": fk, "iv4": iv4, "off4": off4.unwrap_or(0),
@@ -457,6 +475,22 @@ fn fixed(x: f64, scale: f64) -> (i64, bool) {
 
 fn rnd(x: f64, scale: f64) -> i64 {
   fixed(x, scale).0
+}
+
+/// identity of a range without a `key`: its bounds in eighths (the response carries them as an object)
+fn range_id(from8: Option<i64>, to8: Option<i64>) -> String {
+  let f = |v: Option<i64>| v.map(|x| x.to_string()).unwrap_or_else(|| "-".to_string());
+  format!("#{}:{}", f(from8), f(to8))
+}
+
+fn range_key(k: &Value) -> Value {
+  match k.as_str() {
+    Some(s) => kstr(s),
+    None => {
+      let g = |name: &str| k.get(name).and_then(|v| v.as_f64()).map(|x| rnd(x, 8.0));
+      kstr(&range_id(g("from"), g("to")))
+    }
+  }
 }
 
 fn kstr(s: &str) -> Value {
@@ -548,7 +582,7 @@ pub fn canon(a: &A, resp: &Value) -> Value {
   }
   match a {
     A::Terms { subs, .. } | A::Rare { subs, .. } => canon_buckets(a, subs, resp, &|k| vec![match k.as_str() { Some(s) => kstr(s), None => kstr(&k.to_string()) }]),
-    A::Range { subs, .. } => canon_buckets(a, subs, resp, &|k| vec![kstr(k.as_str().unwrap_or(""))]),
+    A::Range { subs, .. } => canon_buckets(a, subs, resp, &|k| vec![range_key(k)]),
     A::Hist { subs, .. } => canon_buckets(a, subs, resp, &|k| vec![knum(k)]),
     A::Comp { subs, sources, .. } => canon_buckets(a, subs, resp, &|k| comp_key(sources, k)),
     A::Filter { subs, .. } => json!({"t": "filter", "n": resp["doc_count"].as_u64().unwrap_or(0), "subs": canon_subs(subs, resp.get("aggregations"))}),
